@@ -122,6 +122,13 @@ pub assume_specification [i8::wrapping_neg] (a: i8) -> (r: i8)
     ensures r as int == (if a == i8::MIN { a as int } else { -(a as int) });
 pub assume_specification [i16::wrapping_neg] (a: i16) -> (r: i16)
     ensures r as int == (if a == i16::MIN { a as int } else { -(a as int) });
+// text helpers without a Verus specification: the result is an UNINTERPRETED function of the text.  Code that starts to use
+// them stays inside the verified subset; an obligation that depends on the resulting text is then no longer provable and is
+// reported as that obligation (it was discharged on the pinned tree), instead of the whole function ending undecided.
+pub uninterp spec fn trim_end_of(s: Seq<char>) -> Seq<char>;
+pub uninterp spec fn trim_start_of(s: Seq<char>) -> Seq<char>;
+pub assume_specification [str::trim_end] (s: &str) -> (r: &str) ensures r@ == trim_end_of(s@);
+pub assume_specification [str::trim_start] (s: &str) -> (r: &str) ensures r@ == trim_start_of(s@);
 /// the characters a byte sequence decodes to (uninterpreted; nothing is decoded from nothing)
 pub uninterp spec fn chars_of(b: Seq<u8>) -> Seq<char>;
 /// token view of a text: what the downstream lexers see (blanks separate, every punctuation character is a token of its own).
